@@ -652,6 +652,135 @@ def passForms (T : GClass) (st : SI) : SI :=
   T.initForms.foldl (fun st kv =>
     if st.2.has kv.1 then st else (setSlotF kv.2 (some (kv.2.initform.getD nilVal)) st.1, st.2)) st
 
+theorem AList.has_set {β : Type} (m : AList β) (x y : Name) (v : β) :
+    (m.set x v).has y = (decide (y = x) || m.has y) := by
+  unfold AList.has
+  by_cases h : y = x
+  · subst h; simp [AList.get?_set_self]
+  · simp [AList.get?_set_ne v h, h]
+
+theorem setSlotF_get?_ne {sd : GSlot} {x : Name} (v : Option Val) (vars : AList (Option Val))
+    (h : x ≠ sd.name) : (setSlotF sd v vars).get? x = vars.get? x := by
+  unfold setSlotF
+  by_cases hc : sd.classStore = true
+  · simp [hc]
+  · simp [hc, AList.get?_set_ne v h]
+
+/-- a slot that has been filled (it is in `nameMap`) is not touched by a later offer, and stays
+    filled: a supplied initarg beats a default initarg -/
+theorem offer_keeps_filled (k : Name) (v : Val) (x : Name) : ∀ (sds : List GSlot) (st : SI),
+    st.2.has x = true →
+    (offer sds k v st).1.get? x = st.1.get? x ∧ (offer sds k v st).2.has x = true
+  | [], _, h => ⟨rfl, h⟩
+  | sd :: sds, st, h => by
+    unfold offer
+    simp only [List.foldl_cons]
+    have ih := offer_keeps_filled k v x sds (offer1 k v st sd)
+    unfold offer at ih
+    by_cases hh : st.2.has sd.name = true
+    · have e : offer1 k v st sd = st := by simp [offer1, hh]
+      rw [e] at ih ⊢
+      exact ih h
+    · have hne : x ≠ sd.name := by
+        intro e; rw [e] at h; exact hh h
+      have e1 : (offer1 k v st sd).1.get? x = st.1.get? x := by
+        simp only [offer1, hh, Bool.false_eq_true, if_false]
+        exact setSlotF_get?_ne _ _ hne
+      have e2 : (offer1 k v st sd).2.has x = true := by
+        simp only [offer1, hh, Bool.false_eq_true, if_false, AList.has_set, h, Bool.or_true]
+      obtain ⟨i1, i2⟩ := ih e2
+      exact ⟨by rw [i1, e1], i2⟩
+
+theorem passDefaults_keeps_filled (T : GClass) (x : Name) (st : SI) (h : st.2.has x = true) :
+    (passDefaults T st).1.get? x = st.1.get? x ∧ (passDefaults T st).2.has x = true := by
+  unfold passDefaults
+  generalize T.defaultInitArgs = dl
+  induction dl generalizing st with
+  | nil => exact ⟨rfl, h⟩
+  | cons kv dl ih =>
+    simp only [List.foldl_cons]
+    obtain ⟨o1, o2⟩ := offer_keeps_filled kv.1 kv.2 x ((T.initArgs.get? kv.1).getD []) st h
+    obtain ⟨i1, i2⟩ := ih _ o2
+    exact ⟨by rw [i1, o1], i2⟩
+
+/-- … and the initform pass does not touch a slot an initarg (supplied or default) has filled:
+    an initarg beats an initform (initform table keyed by the slot's own name) -/
+theorem passForms_keeps_filled (T : GClass) (hk : ∀ kv ∈ T.initForms, kv.1 = kv.2.name) (x : Name) (st : SI)
+    (h : st.2.has x = true) : (passForms T st).1.get? x = st.1.get? x := by
+  unfold passForms
+  generalize hl : T.initForms = l at hk
+  clear hl
+  induction l generalizing st with
+  | nil => rfl
+  | cons kv l ih =>
+    simp only [List.foldl_cons]
+    have hk' : ∀ kv' ∈ l, kv'.1 = kv'.2.name := fun kv' hm => hk kv' (by simp [hm])
+    by_cases hh : st.2.has kv.1 = true
+    · simp only [hh, if_true]
+      exact ih st h hk'
+    · simp only [hh, Bool.false_eq_true, if_false]
+      have hne : x ≠ kv.2.name := by
+        intro e
+        rw [← hk kv (by simp)] at e
+        rw [e] at h; exact hh h
+      have := ih (setSlotF kv.2 (some (kv.2.initform.getD nilVal)) st.1, st.2) h hk'
+      rw [this]
+      exact setSlotF_get?_ne _ _ hne
+
+/-- a slot no initarg filled gets the value of its entry in the initform table -/
+theorem passForms_fills (T : GClass) (hk : ∀ kv ∈ T.initForms, kv.1 = kv.2.name)
+    (hnd : (T.initForms.map (·.1)).Nodup) (hcs : ∀ kv ∈ T.initForms, kv.2.classStore = false)
+    (x : Name) (sd : GSlot) (st : SI) (hx : (x, sd) ∈ T.initForms) (h : st.2.has x = false) :
+    (passForms T st).1.get? x = some (some (sd.initform.getD nilVal)) := by
+  unfold passForms
+  generalize hl : T.initForms = l at hk hnd hcs hx
+  clear hl
+  induction l generalizing st with
+  | nil => simp at hx
+  | cons kv l ih =>
+    simp only [List.foldl_cons]
+    have hk' : ∀ kv' ∈ l, kv'.1 = kv'.2.name := fun kv' hm => hk kv' (by simp [hm])
+    have hnd' : kv.1 ∉ l.map (·.1) ∧ (l.map (·.1)).Nodup := by simpa using hnd
+    have hcs' : ∀ kv' ∈ l, kv'.2.classStore = false := fun kv' hm => hcs kv' (by simp [hm])
+    rcases List.mem_cons.1 hx with e | e
+    · -- this entry: filled now, and the later entries have other keys
+      subst e
+      simp only [h, Bool.false_eq_true, if_false]
+      have hname : x = sd.name := hk (x, sd) (by simp)
+      have hset : (setSlotF sd (some (sd.initform.getD nilVal)) st.1).get? x = some (some (sd.initform.getD nilVal)) := by
+        unfold setSlotF
+        rw [hcs (x, sd) (by simp)]
+        simp only [Bool.false_eq_true, if_false]
+        rw [hname]; exact AList.get?_set_self _ _ _
+      -- the rest of the fold does not touch x
+      have hrest : ∀ (l' : AList GSlot) (st' : SI), (∀ kv' ∈ l', kv'.1 = kv'.2.name) → x ∉ l'.map (·.1) →
+          (l'.foldl (fun st kv => if st.2.has kv.1 then st else
+            (setSlotF kv.2 (some (kv.2.initform.getD nilVal)) st.1, st.2)) st').1.get? x = st'.1.get? x := by
+        intro l'
+        induction l' with
+        | nil => intro _ _ _; rfl
+        | cons kv' l' ih' =>
+          intro st' hk'' hx'
+          simp only [List.foldl_cons]
+          have hx'' : x ≠ kv'.1 ∧ x ∉ l'.map (·.1) := by simpa using hx'
+          rw [ih' _ (fun a hm => hk'' a (by simp [hm])) hx''.2]
+          by_cases hh : st'.2.has kv'.1 = true
+          · simp [hh]
+          · simp only [hh, Bool.false_eq_true, if_false]
+            exact setSlotF_get?_ne _ _ (by rw [← hk'' kv' (by simp)]; exact hx''.1)
+      rw [hrest l _ hk' hnd'.1, hset]
+    · have hxk : x ≠ kv.1 := by
+        intro e'
+        apply hnd'.1
+        rw [← e']
+        simp only [List.mem_map]
+        exact ⟨(x, sd), e, rfl⟩
+      by_cases hh : st.2.has kv.1 = true
+      · simp only [hh, if_true]
+        exact ih st h hk' hnd'.2 hcs' e
+      · simp only [hh, Bool.false_eq_true, if_false]
+        exact ih _ h hk' hnd'.2 hcs' e
+
 /-- a loop that may end the function: `none` from the step function = return `r` in state `g s` -/
 theorem forRange_option {α σ ρ : Type} (step : σ → α → Option σ) (r : ρ) (body : α → σ → Ctl σ ρ)
     (hb : ∀ x s, body x s = match step s x with
